@@ -326,6 +326,8 @@ meta("C10", level="exploration",
           "parks the worker after taking one entry and probes that exactly `capacity` further metrics are accepted; blocked-sink races: with the worker parked inside the closed gate, 2-16 "
           "producers released by a barrier hammer emit (also with 200 KB metrics) - every emit must return while the gate stays closed (else the producers' /proc state is the verdict) and "
           "exactly `capacity` are accepted; " + Q_SEQ + Q_CONC,
+     # a caller process taken down by something the wrapped sink did on the queue's thread was not isolated from it
+     abort_is_violation=True,
      assumptions=Q_ASSUME, exhaustive_scope="the sequential op-sequence enumeration up to the stated length",
      min_evaluations=2000, must_observe={"emits_refused": 500, "emits_accepted": 2000, "capacity_bound_checks": 500, "capacity_probes_with_worker_parked": 2, "blocked_sink_races": 100, "exact_capacity_under_race_checks": 100})
 meta("C11", level="fault_enumeration",
@@ -517,6 +519,8 @@ meta("C17", level="exploration",
           "no client set - including macros tried BEFORE the set on the main thread and on another thread (they must panic, and the same threads must work after the set), and macros on threads "
           "spawned after the set -, a second set_global_default is ignored. Second observer: macro_miri (global client set once, a second set ignored, all 7 macros from 1-4 threads, lines equal to the explicit chains) under Miri with 16 (quick) / 4x64 (thorough) seeds: spurious compare-exchange failures, weak memory, data races and UB on the set-once path. distinct = (macro, value type, tag arity, sink behaviour, handler, set/unset)",
      assumptions=["tag arities above 6 are not driven (the macro repetition is uniform)", "the global can be set once per process, hence one process per configuration"],
+     # a process with a client set that dies by a signal while macros run (a panic inside a destructor at thread exit ...) did panic
+     abort_is_violation=True,
      min_evaluations=2000, must_observe={"macro_vs_chain_pairs_equal": 1500, "argument_evaluations_checked": 5000, "unset_macros_panicked": 100, "handler_deliveries_checked": 100, "second_set_ignored_checks": 4, "miri_seeds_completed": 8, "threads_that_tried_a_macro_before_set": 4, "macros_on_fresh_threads": 4, "argument_order_checks": 1000, "macro_inside_handler_checks": 4})
 
 
@@ -632,7 +636,7 @@ meta("C20", level="exploration",
 def _c20(bindir, tier, seed):
     q = tier == QUICK
     jobs = []
-    for area, n, cases_q, cases_t in (("format", 8, 30, 1500), ("writer", 3, 20000, 400000), ("sinks", 2, 1500, 40000), ("queue", 2, 1500, 30000), ("misc", 1, 200, 2000)):
+    for area, n, cases_q, cases_t in (("format", 8, 30, 1500), ("writer", 3, 20000, 400000), ("sinks", 2, 1500, 40000), ("queue", 2, 1500, 30000), ("misc", 1, 200, 2000), ("tls", 1, 64, 2000)):
         jobs += shards(bindir, "hostile_driver", "C20-" + area, seed, n, ["--area", area, "--cases", str(cases_q if q else cases_t)], 3400)
     # memory-safety observer: a compact tour of the whole public API under Miri (UB, data races, leaks of the paths reached)
     jobs.append(miri_job("C20-miri-api", "C20", "miri_api", [], 2 if q else 32, seed, 1500 if q else 7200, fail_marker="API-ORACLE-FAILED"))
